@@ -97,6 +97,17 @@ def effective_timeout(sp, t):
     return t
 
 
+def is_minus_one(x):
+    """the literal -1 (Python int, or the numeral the engine makes of a default argument)"""
+    if isinstance(x, int) and not isinstance(x, bool):
+        return x == -1
+    if is_sym(x):
+        import z3
+        z = z3.simplify(x)
+        return z3.is_int_value(z) and z.as_long() == -1
+    return False
+
+
 def param_domains(v):
     out = []
     t = v.a.timeout
@@ -104,7 +115,7 @@ def param_domains(v):
         out.append(('timeout-not-sentinel', Not(eq(t, -1))))
     if v.a.has('searchwindowsize'):
         w = v.a.searchwindowsize
-        if w is not None and not (isinstance(w, int) and w == -1):
+        if w is not None and not is_minus_one(w):
             out.append(('W-domain', w >= 1))
     return out
 
